@@ -202,7 +202,10 @@ Section Pairing.
   Add Field PFfield : (pf_th A L).
 
   Notation K := (PF A).
-  Notation gT := (pair A (gen1 A) (gen2 A)).
+  Definition gT : PT A := pair A (gen1 A) (gen2 A).
+
+  Lemma gT_nz : gT <> m0 (PT A).
+  Proof. exact (pair_nondeg A L). Qed.
 
   Lemma gen1_nz : gen1 A <> m0 (P1 A).
   Proof.
@@ -227,7 +230,7 @@ Section Pairing.
 
   Lemma gT_inj x y : msmul (PT A) x gT = msmul (PT A) y gT -> x = y.
   Proof.
-    apply (msmul_gen_inj K (pf_th A L) (pf_eqb A L) (PT A) (pt_laws A L) gT (pair_nondeg A L)).
+    apply (msmul_gen_inj K (pf_th A L) (pf_eqb A L) (PT A) (pt_laws A L) gT gT_nz).
   Qed.
 
   Lemma pair_eq_iff a b c d :
@@ -237,22 +240,40 @@ Section Pairing.
   Qed.
 
   (** Discrete-log calculus for [P1] and [P2], packaged for rewriting. *)
-  Definition dl1_add := dl_add K (pf_th A L) (pf_eqb A L) (P1 A) (p1_laws A L) (gen1 A) gen1_nz (dl1 A) (dl1_spec A L).
-  Definition dl1_smul := dl_smul K (pf_th A L) (pf_eqb A L) (P1 A) (p1_laws A L) (gen1 A) gen1_nz (dl1 A) (dl1_spec A L).
-  Definition dl1_opp := dl_opp K (pf_th A L) (pf_eqb A L) (P1 A) (p1_laws A L) (gen1 A) gen1_nz (dl1 A) (dl1_spec A L).
-  Definition dl1_sub := dl_sub K (pf_th A L) (pf_eqb A L) (P1 A) (p1_laws A L) (gen1 A) gen1_nz (dl1 A) (dl1_spec A L).
-  Definition dl1_zero := dl_zero K (pf_th A L) (pf_eqb A L) (P1 A) (p1_laws A L) (gen1 A) gen1_nz (dl1 A) (dl1_spec A L).
-  Definition dl1_gen := dl_gen K (pf_th A L) (pf_eqb A L) (P1 A) (p1_laws A L) (gen1 A) gen1_nz (dl1 A) (dl1_spec A L).
-  Definition dl1_eq := dl_eq K (pf_th A L) (pf_eqb A L) (P1 A) (p1_laws A L) (gen1 A) gen1_nz (dl1 A) (dl1_spec A L).
-  Definition dl1_eq_zero := dl_eq_zero K (pf_th A L) (pf_eqb A L) (P1 A) (p1_laws A L) (gen1 A) gen1_nz (dl1 A) (dl1_spec A L).
-  Definition dl2_add := dl_add K (pf_th A L) (pf_eqb A L) (P2 A) (p2_laws A L) (gen2 A) gen2_nz (dl2 A) (dl2_spec A L).
-  Definition dl2_smul := dl_smul K (pf_th A L) (pf_eqb A L) (P2 A) (p2_laws A L) (gen2 A) gen2_nz (dl2 A) (dl2_spec A L).
-  Definition dl2_opp := dl_opp K (pf_th A L) (pf_eqb A L) (P2 A) (p2_laws A L) (gen2 A) gen2_nz (dl2 A) (dl2_spec A L).
-  Definition dl2_sub := dl_sub K (pf_th A L) (pf_eqb A L) (P2 A) (p2_laws A L) (gen2 A) gen2_nz (dl2 A) (dl2_spec A L).
-  Definition dl2_zero := dl_zero K (pf_th A L) (pf_eqb A L) (P2 A) (p2_laws A L) (gen2 A) gen2_nz (dl2 A) (dl2_spec A L).
-  Definition dl2_gen := dl_gen K (pf_th A L) (pf_eqb A L) (P2 A) (p2_laws A L) (gen2 A) gen2_nz (dl2 A) (dl2_spec A L).
-  Definition dl2_eq := dl_eq K (pf_th A L) (pf_eqb A L) (P2 A) (p2_laws A L) (gen2 A) gen2_nz (dl2 A) (dl2_spec A L).
-  Definition dl2_eq_zero := dl_eq_zero K (pf_th A L) (pf_eqb A L) (P2 A) (p2_laws A L) (gen2 A) gen2_nz (dl2 A) (dl2_spec A L).
+  Ltac dl_side := first [exact (pf_th A L) | exact (pf_eqb A L) | exact (p1_laws A L) | exact (p2_laws A L)
+                         | exact gen1_nz | exact gen2_nz | exact (dl1_spec A L) | exact (dl2_spec A L)].
+  Lemma dl1_add (a b : P1 A) : dl1 A (madd _ a b) = fadd K (dl1 A a) (dl1 A b).
+  Proof. apply dl_add with (g := gen1 A); dl_side. Qed.
+  Lemma dl1_smul (x : K) (a : P1 A) : dl1 A (msmul _ x a) = fmul K x (dl1 A a).
+  Proof. apply dl_smul with (g := gen1 A); dl_side. Qed.
+  Lemma dl1_opp (a : P1 A) : dl1 A (mopp _ a) = fopp K (dl1 A a).
+  Proof. apply dl_opp with (g := gen1 A); dl_side. Qed.
+  Lemma dl1_sub (a b : P1 A) : dl1 A (msub _ a b) = fsub K (dl1 A a) (dl1 A b).
+  Proof. apply dl_sub with (g := gen1 A); dl_side. Qed.
+  Lemma dl1_zero  : dl1 A (m0 _) = f0 K.
+  Proof. apply dl_zero with (g := gen1 A); dl_side. Qed.
+  Lemma dl1_gen  : dl1 A (gen1 A) = f1 K.
+  Proof. apply dl_gen with (g := gen1 A); dl_side. Qed.
+  Lemma dl1_eq (a b : P1 A) : a = b <-> dl1 A a = dl1 A b.
+  Proof. apply dl_eq with (g := gen1 A); dl_side. Qed.
+  Lemma dl1_eq_zero (a : P1 A) : dl1 A a = f0 K <-> a = m0 (P1 A).
+  Proof. apply dl_eq_zero with (g := gen1 A); dl_side. Qed.
+  Lemma dl2_add (a b : P2 A) : dl2 A (madd _ a b) = fadd K (dl2 A a) (dl2 A b).
+  Proof. apply dl_add with (g := gen2 A); dl_side. Qed.
+  Lemma dl2_smul (x : K) (a : P2 A) : dl2 A (msmul _ x a) = fmul K x (dl2 A a).
+  Proof. apply dl_smul with (g := gen2 A); dl_side. Qed.
+  Lemma dl2_opp (a : P2 A) : dl2 A (mopp _ a) = fopp K (dl2 A a).
+  Proof. apply dl_opp with (g := gen2 A); dl_side. Qed.
+  Lemma dl2_sub (a b : P2 A) : dl2 A (msub _ a b) = fsub K (dl2 A a) (dl2 A b).
+  Proof. apply dl_sub with (g := gen2 A); dl_side. Qed.
+  Lemma dl2_zero  : dl2 A (m0 _) = f0 K.
+  Proof. apply dl_zero with (g := gen2 A); dl_side. Qed.
+  Lemma dl2_gen  : dl2 A (gen2 A) = f1 K.
+  Proof. apply dl_gen with (g := gen2 A); dl_side. Qed.
+  Lemma dl2_eq (a b : P2 A) : a = b <-> dl2 A a = dl2 A b.
+  Proof. apply dl_eq with (g := gen2 A); dl_side. Qed.
+  Lemma dl2_eq_zero (a : P2 A) : dl2 A a = f0 K <-> a = m0 (P2 A).
+  Proof. apply dl_eq_zero with (g := gen2 A); dl_side. Qed.
 
   (** [check_pairing_eq a b c d] as coded in [curve_arithmetic::Pairing]:
       [e(a,b) * e(-c,d) == 1]. *)
@@ -264,11 +285,16 @@ Section Pairing.
   Proof.
     unfold check_pairing_eq. rewrite (meqb_spec _ (pt_laws A L)), pair_eq_iff, !pair_exp.
     rewrite <- (msmul_add_l _ (pt_laws A L)).
-    rewrite <- (msmul_0_l K (pf_th A L) (PT A) (pt_laws A L) gT) at 2.
-    split.
-    - intros H. apply gT_inj in H. rewrite dl1_opp in H.
-      rewrite <- (Radd_0_l (F_R (pf_th A L)) (fmul K (dl1 A c) (dl2 A d))). rewrite <- H. ring.
-    - intros H. f_equal. rewrite dl1_opp, H. ring.
+    rewrite dl1_opp. split; intros H.
+    - apply msmul_gen_zero with (g := gT) in H;
+        [| exact (pf_th A L) | exact (pf_eqb A L) | exact (pt_laws A L) | exact gT_nz ].
+      assert (E : fmul K (dl1 A a) (dl2 A b)
+                  = fadd K (fadd K (fmul K (dl1 A a) (dl2 A b)) (fmul K (fopp K (dl1 A c)) (dl2 A d)))
+                      (fmul K (dl1 A c) (dl2 A d))) by ring.
+      rewrite E, H. ring.
+    - rewrite H.
+      replace (fadd K (fmul K (dl1 A c) (dl2 A d)) (fmul K (fopp K (dl1 A c)) (dl2 A d))) with (f0 K) by ring.
+      apply msmul_0_l; [exact (pf_th A L) | exact (pt_laws A L)].
   Qed.
 End Pairing.
 
